@@ -9,6 +9,7 @@
  * usage: kdrv <program.txt> [--cfg=...]
  */
 #include <simgrid/Exception.hpp>
+#include <simgrid/modelchecker.h>
 #include <simgrid/s4u.hpp>
 
 #include <cmath>
@@ -159,6 +160,8 @@ static void run_actor(int idx)
         cvs[op.a[0] - 1]->notify_all();
       else if (n == "bar")
         flag = bars[op.a[0] - 1]->wait();
+      else if (n == "rand") // MC_random(0, max): a transition with max + 1 outcomes under the model checker
+        res = "r" + std::to_string(MC_random(0, static_cast<int>(op.a[0])));
       else if (n == "sleep")
         sg4::this_actor::sleep_for(op.a[2] * TICK);
       else if (n == "yield")
